@@ -26,5 +26,5 @@ CoordsThorough == {<<1, 0>>, <<1, 1>>, <<2, 1>>, <<2, 2>>, <<3, 0>>}
 (* non-trivial: some stored operation would close a cycle (its next commitment was consumed before or is its own) *)
 HasLoop == LET st == ResolveRef(store) IN
   \E o \in store : o.sh.ty # "C" /\ (NextC(o) = o.sh.rk \/ \E i \in DOMAIN st.log : st.log[i].c = NextC(o) /\ st.log[i].c # NoC)
-EmitC12 == PrintT("CASE " \o ToJson([ops |-> OpsJson, res |-> res, na |-> IF HasLoop THEN 1 ELSE 0]))
+EmitC12 == PrintT("CASE " \o ToJson([ops |-> OpsJson, res |-> res, ao |-> AoNow, na |-> IF HasLoop THEN 1 ELSE 0]))
 =============================================================================
